@@ -349,4 +349,7 @@ WITNESSES = [
      "old": "\tif (header.ver != rtr_socket->version && header.type != ERROR) {", "new": "\tif (header.ver != rtr_socket->version && header.type != ERROR && header.type != SERIAL_NOTIFY) {"},
     {"id": "C13.w10-first-pdu-downgrade-also-for-error", "rule": "C13.R1", "file": PK,
      "old": "header.ver == RTR_PROTOCOL_VERSION_0 &&\n\t\t    header.type != ERROR) {", "new": "header.ver == RTR_PROTOCOL_VERSION_0) {"},
+    {"id": "C13.w-error-report-does-not-use-up-first-pdu-slot", "rule": "C13.R2", "file": PK,
+     "old": "\tif (!rtr_socket->has_received_pdus) {\n\t\tif (rtr_socket->version == RTR_PROTOCOL_VERSION_1 && header.ver == RTR_PROTOCOL_VERSION_0 &&\n\t\t    header.type != ERROR) {",
+     "new": "\tif (!rtr_socket->has_received_pdus && header.type != ERROR) {\n\t\tif (rtr_socket->version == RTR_PROTOCOL_VERSION_1 && header.ver == RTR_PROTOCOL_VERSION_0) {"},
 ]
